@@ -139,6 +139,12 @@ func (sr *srcRenderer) vexpr(v any) string {
 		return fmt.Sprintf("%s + %d", str(m["n"]), num(m["d"]))
 	case "obs":
 		return fmt.Sprintf("r.V(%d, %s)", num(m["id"]), str(m["n"]))
+	case "neg":
+		return "-" + sr.vexpr(m["e"])
+	case "paren":
+		return "(" + sr.vexpr(m["e"]) + ")"
+	case "w1":
+		return "r.W(" + sr.vexpr(m["e"]) + ")"
 	}
 	panic("unknown value expression " + canon(m))
 }
@@ -308,6 +314,11 @@ func (sr *srcRenderer) stmt(s any, ind string) string {
 			return ind + "return nil\n"
 		}
 		return ind + "return\n"
+	case "retx":
+		if sr.md == coMode {
+			return fmt.Sprintf("%sreturn rt.NilOf[%sIter[int]](r, %d)\n", ind, sr.api, num(m["id"]))
+		}
+		return fmt.Sprintf("%srt.NilOf[int](r, %d)\n%sreturn\n", ind, num(m["id"]), ind)
 	case "unsup":
 		return sr.unsup(m, ind)
 	}
@@ -350,7 +361,7 @@ func terminatingList(ss []any) bool {
 func terminating(s any) bool {
 	m := obj(s)
 	switch m["k"] {
-	case "return", "panic":
+	case "return", "retx", "panic":
 		return true
 	case "block":
 		return terminatingList(arr(m["body"]))
